@@ -244,6 +244,25 @@ class PropertyVal:
         self.get, self.set, self.delete = get, set, delete
 
 
+class RegexVal:
+    """A compiled pattern (re.compile of constant arguments in the repo).
+    Matching on concrete strings is delegated to Python's own `re`, which is
+    part of the trusted base."""
+
+    def __init__(self, pattern, flags=0):
+        import re as _re
+        self.pattern, self.flags = pattern, flags
+        self.rx = _re.compile(pattern, flags)
+
+    def __repr__(self):
+        return f"<regex {self.pattern!r}>"
+
+
+class MatchVal:
+    def __init__(self, m):
+        self.m = m
+
+
 class Unknown:
     """A value the model does not describe; any use is an analysis error."""
 
@@ -260,9 +279,11 @@ BUILTIN_EXC = {
     "AttributeError": "Exception", "KeyError": "LookupError",
     "IndexError": "LookupError", "LookupError": "Exception",
     "OverflowError": "ArithmeticError", "ArithmeticError": "Exception",
-    "AssertionError": "Exception", "UnicodeEncodeError": "ValueError",
+    "AssertionError": "Exception", "UnicodeEncodeError": "UnicodeError",
+    "UnicodeDecodeError": "UnicodeError",
     "UnicodeError": "ValueError", "NotImplementedError": "Exception",
     "StopIteration": "Exception", "RuntimeError": "Exception",
+    "ZeroDivisionError": "ArithmeticError",
 }
 
 TYPE_NAMES = {"date", "datetime", "timedelta", "time", "tzinfo", "list", "str",
@@ -558,6 +579,10 @@ class Interp:
             return list(x.items)
         if isinstance(x, str):
             return list(x)
+        if isinstance(x, bytes):
+            return list(x)
+        if isinstance(x, Obj) and x.strval is not None:
+            return list(x.strval)
         raise Unsupported(f"iteration over {x!r}")
 
     # ---- truthiness / comparison ------------------------------------------
@@ -568,7 +593,8 @@ class Interp:
             return True
         if isinstance(v, TD):
             return v.mag != "zero"
-        if isinstance(v, (TZ, Closure, Bound, Native, ClassVal, TypeTok, TimeVal, NativeObj, PropertyVal)):
+        if isinstance(v, (TZ, Closure, Bound, Native, ClassVal, TypeTok, TimeVal, NativeObj, PropertyVal,
+                          RegexVal, MatchVal)):
             return True
         if isinstance(v, Obj):
             if v.cls is not None:
@@ -694,8 +720,20 @@ class Interp:
             return any(self._equal(x, y) for y in container)
         if isinstance(container, dict):
             return x in container
+        if isinstance(container, Obj) and container.strval is not None:
+            container = container.strval
+        if isinstance(container, Obj) and container.listval is not None:
+            return any(self._equal(x, y) for y in container.listval)
         if isinstance(container, str):
-            return self._str(x) in container
+            if isinstance(x, Obj) and x.strval is not None:
+                x = x.strval
+            if not isinstance(x, str):
+                raise AbsRaise("TypeError", "'in <string>' requires string as left operand")
+            return x in container
+        if isinstance(container, bytes):
+            if not isinstance(x, (bytes, int)):
+                raise AbsRaise("TypeError", "a bytes-like object is required")
+            return x in container
         raise Unsupported(f"`in` on {container!r}")
 
     def _key(self, k):
@@ -749,6 +787,12 @@ class Interp:
             if name == "days":
                 raise Unsupported("timedelta.days of a symbolic duration")
             raise Unsupported(f"attribute {name} of a timedelta")
+        if isinstance(o, RegexVal):
+            return self._regex_method(o, name)
+        if isinstance(o, MatchVal):
+            if name in ("group", "groups", "start", "end", "span"):
+                return Native(name, lambda i, a, k, o=o: getattr(o.m, name)(*a))
+            raise Unsupported(f"match.{name}")
         if isinstance(o, TZ):
             if name in ("localize", "normalize", "zone"):
                 if self.provider == "pytz":
@@ -784,7 +828,7 @@ class Interp:
             return self._obj_attr(o, name)
         if isinstance(o, list):
             return self._list_method(o, name)
-        if isinstance(o, str):
+        if isinstance(o, (str, bytes)):
             return self._str_method(o, name)
         if isinstance(o, dict):
             return self._dict_method(o, name)
@@ -875,16 +919,61 @@ class Interp:
         raise Unsupported(f"list.{name}")
 
     def _str_method(self, o, name):
+        if name == "decode" and isinstance(o, bytes):
+            def dec(i, a, k):
+                try:
+                    return o.decode(*a, **k)
+                except UnicodeError as e:
+                    raise AbsRaise("UnicodeDecodeError", str(e))
+                except LookupError as e:
+                    raise AbsRaise("LookupError", str(e))
+            return Native("decode", dec)
         if name in ("lower", "upper", "strip"):
             return Native(name, lambda i, a, k: getattr(o, name)(*a))
         if name in ("startswith", "endswith"):
             return Native(name, lambda i, a, k: getattr(o, name)(*a))
         if name == "format":
-            return Native("format", lambda i, a, k: "<formatted>")
+            def fmt(i, a, k):
+                vals = [x.strval if isinstance(x, Obj) and x.strval is not None else x for x in a]
+                if all(isinstance(x, (str, int, float, bytes, type(None))) for x in vals) and \
+                        all(isinstance(x, (str, int, float, bytes, type(None))) for x in k.values()):
+                    try:
+                        return o.format(*vals, **k)
+                    except (IndexError, KeyError, ValueError) as e:
+                        raise AbsRaise(type(e).__name__, str(e))
+                return "<formatted>"
+            return Native("format", fmt)
         if name == "join":
-            return Native("join", lambda i, a, k: "<joined>")
+            def join(i, a, k):
+                xs = [x.strval if isinstance(x, Obj) and x.strval is not None else x
+                      for x in self._as_list(a[0])]
+                if all(isinstance(x, type(o)) for x in xs):
+                    return o.join(xs)
+                if any(isinstance(x, (str, bytes, int, type(None))) and not isinstance(x, type(o))
+                       for x in xs):
+                    raise AbsRaise("TypeError", "sequence item: expected str instance")
+                return "<joined>"
+            return Native("join", join)
         if name == "encode":
-            return Native("encode", lambda i, a, k: o.encode())
+            def enc(i, a, k):
+                try:
+                    return o.encode(*a, **k)
+                except UnicodeError as e:
+                    raise AbsRaise("UnicodeEncodeError", str(e))
+            return Native("encode", enc)
+        if name in ("find", "rfind", "index", "count", "isdigit", "isalpha", "isalnum", "isspace",
+                    "isupper", "islower", "title", "capitalize", "lstrip", "rstrip", "partition",
+                    "rpartition", "rsplit", "splitlines", "zfill", "ljust", "rjust", "center",
+                    "casefold", "swapcase", "removeprefix", "removesuffix", "expandtabs", "isascii"):
+            def meth(i, a, k, name=name):
+                aa = [x.strval if isinstance(x, Obj) and x.strval is not None else x for x in a]
+                try:
+                    return getattr(o, name)(*aa, **k)
+                except ValueError as e:
+                    raise AbsRaise("ValueError", str(e))
+                except TypeError as e:
+                    raise AbsRaise("TypeError", str(e))
+            return Native(name, meth)
         if name == "split":
             return Native("split", lambda i, a, k: o.split(*a))
         if name == "replace":
@@ -1012,9 +1101,68 @@ class Interp:
             return Native("copy", cp)
         if name == "__contains__":
             return Native("__contains__", lambda i, a, k: K(a[0]) in it)
+        if name == "clear":
+            return Native("clear", lambda i, a, k: it.clear())
+        if name == "__len__":
+            return Native("__len__", lambda i, a, k: len(it))
         return None
 
+    def _re_compile(self, i, a, k):
+        if not a or not isinstance(a[0], (str, bytes)):
+            raise Unsupported(f"re.compile({a!r})")
+        flags = a[1] if len(a) > 1 else k.get("flags", 0)
+        if not isinstance(flags, int):
+            raise Unsupported("re.compile flags")
+        return RegexVal(a[0], flags)
+
+    def _text(self, x):
+        """Concrete str/bytes of a value handed to a regex."""
+        if isinstance(x, Obj) and x.strval is not None:
+            return x.strval
+        if isinstance(x, (str, bytes)):
+            return x
+        raise Unsupported(f"regex applied to {x!r}")
+
+    def _regex_method(self, r, name):
+        T = self._text
+        if name in ("findall", "split"):
+            return Native(name, lambda i, a, k: getattr(r.rx, name)(T(a[0]), *a[1:]))
+        if name in ("search", "match", "fullmatch"):
+            def m(i, a, k):
+                try:
+                    got = getattr(r.rx, name)(T(a[0]), *a[1:])
+                except TypeError as e:
+                    raise AbsRaise("TypeError", str(e))
+                return MatchVal(got) if got is not None else None
+            return Native(name, m)
+        if name == "sub":
+            def sub(i, a, k):
+                repl, text = a[0], T(a[1])
+                if isinstance(repl, (str, bytes)):
+                    try:
+                        return r.rx.sub(repl, text, *a[2:])
+                    except TypeError as e:
+                        raise AbsRaise("TypeError", str(e))
+                return r.rx.sub(lambda mm: self.call(repl, [MatchVal(mm)], {}), text, *a[2:])
+            return Native("sub", sub)
+        if name == "pattern":
+            return r.pattern
+        raise Unsupported(f"regex.{name}")
+
     def _native_obj_attr(self, o, name):
+        if o.name == "re":
+            if name == "compile":
+                return Native("re.compile", self._re_compile)
+            if name in ("findall", "split", "search", "match", "fullmatch", "sub"):
+                return Native("re." + name, lambda i, a, k: self.call(
+                    self._regex_method(self._re_compile(i, a[:1], {}), name), a[1:], k))
+            if name == "escape":
+                import re as _re
+                return Native("re.escape", lambda i, a, k: _re.escape(a[0]))
+            if name in ("IGNORECASE", "I", "MULTILINE", "M", "DOTALL", "S", "UNICODE", "U", "ASCII", "A"):
+                import re as _re
+                return int(getattr(_re, name))
+            raise Unsupported(f"re.{name}")
         if o.name == "tzp":
             if name == "localize_utc":
                 return Native("tzp.localize_utc", self._localize_utc)
@@ -1126,8 +1274,23 @@ class Interp:
             if ent is None:
                 raise AbsRaise("KeyError", idx)
             return ClassVal(ent[0])
-        if isinstance(o, str):
+        if isinstance(o, Obj) and o.strval is not None and \
+                self.model.lookup_method(o.cls, "__getitem__") is None:
+            o = o.strval
+        if isinstance(o, Obj) and o.listval is not None and \
+                self.model.lookup_method(o.cls, "__getitem__") is None:
+            o = o.listval
+            if not isinstance(idx, slice):
+                try:
+                    return o[self._concrete_int(idx)]
+                except IndexError:
+                    raise AbsRaise("IndexError", "index out of range")
             return o[idx]
+        if isinstance(o, (str, bytes)):
+            try:
+                return o[idx]
+            except IndexError:
+                raise AbsRaise("IndexError", "string index out of range")
         if isinstance(o, Unknown):
             return Unknown(f"{o.why}[...]")
         raise Unsupported(f"subscript of {o!r}")
@@ -1221,6 +1384,25 @@ class Interp:
                 return a * b
         if isinstance(op, ast.Mod) and isinstance(a, str):
             return "<formatted>"
+        # concrete Python scalars and strings: Python's own semantics
+        ua = a.strval if isinstance(a, Obj) and a.strval is not None else a
+        ub = b.strval if isinstance(b, Obj) and b.strval is not None else b
+        prim = (str, bytes, int, float)
+        if isinstance(ua, prim) and isinstance(ub, prim):
+            import operator as _op
+            fn = {ast.Add: _op.add, ast.Sub: _op.sub, ast.Mult: _op.mul, ast.FloorDiv: _op.floordiv,
+                  ast.Mod: _op.mod, ast.Div: _op.truediv, ast.Pow: _op.pow, ast.BitAnd: _op.and_,
+                  ast.BitOr: _op.or_, ast.BitXor: _op.xor, ast.LShift: _op.lshift,
+                  ast.RShift: _op.rshift}.get(type(op))
+            if fn is not None:
+                try:
+                    return fn(ua, ub)
+                except TypeError as e:
+                    raise AbsRaise("TypeError", str(e))
+                except ZeroDivisionError as e:
+                    raise AbsRaise("ZeroDivisionError", str(e))
+                except OverflowError as e:
+                    raise AbsRaise("OverflowError", str(e))
         raise Unsupported(f"operator {type(op).__name__} on {a!r}, {b!r}")
 
     def _shift(self, d, td, sign):
@@ -1638,13 +1820,41 @@ class Interp:
                 return self.getitem(o, slice(lo, hi))
             return self.getitem(o, self.eval(e.slice, env))
         if isinstance(e, ast.JoinedStr):
+            parts = []
+            concrete = True
             for v in e.values:
                 if isinstance(v, ast.FormattedValue):
                     try:
-                        self.eval(v.value, env)
+                        x = self.eval(v.value, env)
                     except Unsupported:
-                        pass
-            return "<fstring>"
+                        concrete = False
+                        continue
+                    if isinstance(x, Obj) and x.strval is not None:
+                        x = x.strval
+                    spec = ""
+                    if v.format_spec is not None:
+                        sp = self.eval(v.format_spec, env)
+                        if isinstance(sp, str) and "<" not in sp[:1]:
+                            spec = sp
+                        else:
+                            concrete = False
+                    if isinstance(x, (str, int, float, bytes)) and not isinstance(x, bool) or x is None \
+                            or isinstance(x, bool):
+                        try:
+                            if v.conversion == ord("r"):
+                                x = repr(x)
+                            elif v.conversion == ord("s"):
+                                x = str(x)
+                            elif v.conversion == ord("a"):
+                                x = ascii(x)
+                            parts.append(format(x, spec))
+                        except (ValueError, TypeError):
+                            concrete = False
+                    else:
+                        concrete = False
+                elif isinstance(v, ast.Constant):
+                    parts.append(str(v.value))
+            return "".join(parts) if concrete else "<fstring>"
         if isinstance(e, (ast.ListComp, ast.GeneratorExp, ast.SetComp)):
             out = []
             self._comp(e.generators, 0, env, lambda en: out.append(self.eval(e.elt, en)))
@@ -1755,6 +1965,60 @@ class Interp:
             other = args[0]
             return isinstance(other, Obj) and other.items is not None and \
                 dict(selfv.items) == dict(other.items)
+        if isinstance(selfv, Obj) and selfv.items is not None:
+            # the builtin dict / OrderedDict under the CaselessDict family: raw keys
+            it = selfv.items
+
+            def K(k):
+                if isinstance(k, Obj) and k.strval is not None:
+                    k = k.strval
+                try:
+                    hash(k)
+                except TypeError:
+                    raise AbsRaise("TypeError", "unhashable key")
+                return k
+            a = list(args)
+            if meth == "__setitem__":
+                it[K(a[0])] = a[1]
+                return None
+            if meth == "__getitem__":
+                if K(a[0]) not in it:
+                    raise AbsRaise("KeyError", repr(a[0]))
+                return it[K(a[0])]
+            if meth == "__delitem__":
+                if K(a[0]) not in it:
+                    raise AbsRaise("KeyError", repr(a[0]))
+                del it[K(a[0])]
+                return None
+            if meth == "__contains__":
+                return K(a[0]) in it
+            if meth == "get":
+                return it.get(K(a[0]), a[1] if len(a) > 1 else kwargs.get("default"))
+            if meth == "setdefault":
+                return it.setdefault(K(a[0]), a[1] if len(a) > 1 else None)
+            if meth == "pop":
+                if len(a) > 1:
+                    return it.pop(K(a[0]), a[1])
+                if K(a[0]) not in it:
+                    raise AbsRaise("KeyError", repr(a[0]))
+                return it.pop(K(a[0]))
+            if meth == "popitem":
+                if not it:
+                    raise AbsRaise("KeyError", "popitem(): dictionary is empty")
+                return it.popitem()
+            if meth == "copy":
+                return dict(it)
+            if meth == "clear":
+                it.clear()
+                return None
+            if meth in ("keys", "__iter__"):
+                return list(it.keys())
+            if meth == "values":
+                return list(it.values())
+            if meth == "items":
+                return list(it.items())
+            if meth == "__len__":
+                return len(it)
         raise Unsupported(f"super().{meth} into builtin {base}")
 
     def _wrap_resolved(self, r, name):
@@ -1769,6 +2033,10 @@ class Interp:
                 t = external_type(r[1])
                 if t is not None:
                     return t
+                if r[1] == "re":
+                    return NativeObj("re")
+                if r[1] == "re.compile":
+                    return Native("re.compile", self._re_compile)
                 return Unknown(f"external {r[1]}")
             if r[0] == "module":
                 return Unknown(f"module {r[1].name}")
